@@ -315,8 +315,8 @@ int main (int argc, char *argv[]) {
                      * out the split string */
                     matched++;
                     if(matched == split_size) {
-                        if(l > matched)
-                            write_data(zck, data + start, l - (start + matched - 1));
+                        if(l + 1 - matched > start)
+                            write_data(zck, data + start, l + 1 - matched - start);
                         if(zck_end_chunk(zck) < 0)
                             exit(1);
                         write_data(zck, arguments.split_string, split_size);
@@ -333,8 +333,14 @@ int main (int argc, char *argv[]) {
                 }
             }
         }
-        write_data(zck, data + start, in_size - (start + matched));
+        /* Hold back a partial match at the end of the block; if it began in
+         * an earlier block, nothing of this block is written yet */
+        if(matched <= in_size - start)
+            write_data(zck, data + start, in_size - (start + matched));
     }
+    /* A partial match at the end of the input is ordinary data */
+    if(split_size > 0 && matched > 0)
+        write_data(zck, arguments.split_string, matched);
 
     close(in_fd);
 
